@@ -411,6 +411,10 @@ class VgiAccessLogFormatter(VgiJsonFormatter):
             "error_type": obj.get("error_type", ""),
             "truncated": "record_too_large",
         }
+        # Conditionally required by the schema (method_type == "stream"), and
+        # the only key that joins this record to the rest of its stream.
+        if "stream_id" in obj:
+            sentinel["stream_id"] = obj["stream_id"]
         if sentinel["status"] == "error":
             err = obj.get("error_message")
             sentinel["error_message"] = err if isinstance(err, str) and err else "record_too_large"
